@@ -300,6 +300,17 @@ def joinLines : Bool → Bytes → Bytes
     if b == bBS && !prevBS && c == bNL then joinLines false rest
     else b :: joinLines (b == bBS) (c :: rest)
 
+/-- Does a line continuation (by the lexer's rule) come directly after `$`, `(` or `)`?  The lexer
+    builds `${`, `$((` and `))` by looking at the next rune without skipping the continuation, so
+    `$\<newline>{x}` is not read as `${x}` (finding C25-continuation-inside-dollar-token): kept out. -/
+def contRisk : Bool → UInt8 → Bytes → Bool
+  | _, _, [] => false
+  | _, _, [_] => false
+  | prevBS, prev, b :: c :: rest =>
+    if b == bBS && !prevBS && c == bNL then
+      (prev == bDollar || prev == bLP || prev == bRP) || contRisk false prev rest
+    else contRisk (b == bBS) b (c :: rest)
+
 /-- Parser.Document on the fragment: the parts of the here-document word. -/
 def parseDoc : Nat → Bytes → Bytes → List Part → PRes (List Part)
   | 0, _, _, _ => .outside
@@ -589,6 +600,7 @@ inductive Res (α : Type)
 
 /-- shell.Expand. -/
 def shellExpand (s : Bytes) (env : Env) : Res Bytes :=
+  if contRisk false 0 s then .outside else
   let s := joinLines false s
   match parseDoc (s.length + 1) s [] [] with
   | .err => .err
